@@ -52,13 +52,22 @@ Qed.
 
 (* ---- fr fill.  With a definite content-box size S, after expand_flexible_tracks the base sizes sum to at least S
    provided the flex factors of the tracks still treated as flexible in the final iteration of find_size_of_fr sum
-   to at least 1 (and the loop left through its exit condition: C09_fr_terminates_partial). *)
+   to at least 1.  (track_ok2: base sizes and flex factors finite and >= 0.) *)
 Theorem C09_fr_fill : forall (tracks : list (track XQ)) (S : XQ) amin amax items,
-  Forall track_ok tracks -> finite S ->
-  snd (fr_exit tracks S) = true ->
+  Forall track_ok2 tracks -> finite S ->
   x_leb (Fin 1) (final_flex_factor_sum tracks S) = true ->
   x_leb S (@fsum XQ _ (map base_size (expand_flexible_tracks amin amax (Definite S) items tracks))) = true.
-Proof. exact fr_fill. Qed.
+Proof.
+  intros tracks S amin amax items Hok HS Hsum. destruct (fin_inv S HS) as [sp E]. subst S.
+  apply fr_fill; auto.
+  - eapply Forall_impl; [|exact Hok]. intros t [Hf [Hb _]]. split; assumption.
+  - apply fr_terminates. exact Hok.
+Qed.
+
+(* the restart loop of find_size_of_fr leaves through its exit condition within length + 2 iterations *)
+Theorem C09_fr_terminates : forall (tracks : list (track XQ)) (sp : Q),
+  Forall track_ok2 tracks -> snd (fr_exit tracks (Fin sp)) = true.
+Proof. intros. apply fr_terminates. assumption. Qed.
 
 (* the property's premise (ALL fr factors of the axis sum to >= 1) is not enough: `0.5fr 0.6fr` in 200px with an
    item of width 100 in the first track gives 100 + 60 = 160 < 200 *)
@@ -135,6 +144,7 @@ Print Assumptions C09_initial_sizes.
 Print Assumptions C09_explicit_count.
 Print Assumptions C09_tracks_match_counts.
 Print Assumptions C09_fr_fill.
+Print Assumptions C09_fr_terminates.
 Print Assumptions C09_fr_fill_refuted.
 Print Assumptions C09_fr_proportional_partial.
 Print Assumptions C09_fixed_exact_partial.
